@@ -313,7 +313,11 @@ func check(c Case, o *vf.Obs) error {
 	if c.Hiccup {
 		shotUs, maxResp = hiccupPlan(c, tokens)
 	}
-	prov := fake.NewProvider(fake.ProviderPlan{Total: -1, Queue: 4, AfterLast: "wait_ctx"})
+	queue := 4
+	if c.Hiccup {
+		queue = 4096 // thousands of requests per second: the ammo is there when an instance asks for it
+	}
+	prov := fake.NewProvider(fake.ProviderPlan{Total: -1, Queue: queue, AfterLast: "wait_ctx"})
 	guns := fake.NewGunWorld(fake.GunPlan{ShotUs: shotUs, PanicAtShot: -1, FactoryErrAt: -1, BindErrAt: -1})
 	aggr := fake.NewAggregator(fake.AggPlan{})
 	aggr.KeepTags = true
@@ -356,7 +360,7 @@ func check(c Case, o *vf.Obs) error {
 	// made of the fake guns' response times, which are sleeps: on a machine so busy that this process's own 2 ms
 	// sleeps are measurably late the responses are late as well, and the run gets five times the bound more.
 	var probe *vf.LoadProbe
-	if !c.Discard {
+	if !c.Discard || c.Hiccup {
 		probe = vf.StartLoadProbe()
 	}
 	t0 := time.Now()
@@ -370,7 +374,8 @@ func check(c Case, o *vf.Obs) error {
 		expired = true
 	}
 	if probe != nil {
-		if late := probe.Stop(); expired && late > 5*time.Millisecond {
+		late := probe.Stop()
+		if expired && late > 5*time.Millisecond && !c.Discard {
 			select {
 			case <-done:
 				expired = false
@@ -378,6 +383,18 @@ func check(c Case, o *vf.Obs) error {
 			case <-time.After(5 * bound):
 			}
 		}
+		// dense profiles: the run is made of tens of thousands of tokens each of which costs the recording doubles CPU
+		// time; on a machine so busy that this process's own 2 ms sleeps were measured > 5 ms late that work is late as
+		// well, and the run gets the bound once more (a run that skips overdue tokens at a cost stays far beyond that)
+		if expired && late > 5*time.Millisecond && c.Hiccup {
+			select {
+			case <-done:
+				expired = false
+				o.Class("dense_hiccup_run_bound_extended_under_machine_load")
+			case <-time.After(bound):
+			}
+		}
+		o.Note("own_2ms_sleep_late_by_ms", float64(late)/1e6)
 	}
 	if expired {
 		cancel()
